@@ -4,6 +4,7 @@
 package c01
 
 import (
+	"fmt"
 	"sort"
 	"testing"
 
@@ -14,6 +15,12 @@ import (
 func TestCheck(t *testing.T) {
 	env := vh.GetEnv()
 	run := vh.NewRun(env, "AM.Run.C01Run")
+	// second part: ONE case per scenario for the instance model (routing + grouping + all group machines on one
+	// clock); a published alert is a single event and the model decides which groups receive it
+	runI := vh.NewRun(env, "AM.Run.InstRun")
+	runI.Prefix = "i"
+	maxInst := env.N(200, 4)
+	const maxInstEvents = 600
 	var scs []sysrun.Scenario
 	if env.Replay != "" {
 		var sc sysrun.Scenario
@@ -27,6 +34,10 @@ func TestCheck(t *testing.T) {
 		n := env.N(250, 8)
 		for i := 0; i < n; i++ {
 			scs = append(scs, sysrun.Gen(r.Fork(), sysrun.GenOpts{MaxOps: 10, Faults: i%2 == 0, Silences: i%3 == 1, MultiInt: true, Routes: i%3 == 2, Flap: i%7 == 3}))
+			if i%3 == 2 {
+				// child routes with their own group_wait / group_interval (own generator: the stream of r is untouched)
+				sysrun.VaryRouteTimers(vh.NewRand(env.Seed*1000003+uint64(i)), &scs[len(scs)-1])
+			}
 		}
 	}
 	for i := range scs {
@@ -56,8 +67,27 @@ func TestCheck(t *testing.T) {
 		for _, v := range sysrun.Monitor(res, "C01") {
 			run.Violate(v.Key, v.What, sc)
 		}
+		if runI.Len() < maxInst {
+			term, stats := res.InstanceCase()
+			if stats["events"] > maxInstEvents {
+				// a few scenarios (1 s group_interval over hours) have thousands of events; they stay covered by the
+				// per-group cases above, the instance part keeps its case text bounded
+				runI.Count("instance_cases_with", "skipped: more than 600 events")
+				continue
+			}
+			runI.Add(term, sc, stats["groups-flushed"] >= 2 && stats["alert"] >= 2)
+			for name, n := range stats {
+				if n > 0 {
+					runI.Count("instance_cases_with", name)
+				}
+			}
+			runI.Count("instance_groups_flushed", fmt.Sprintf("%d", stats["groups-flushed"]))
+		}
 	}
 	if err := run.Finish("random whole-instance scenarios (config, alert timelines, receiver fault scripts, silences, nflog GC) run under synctest virtual time; one case per aggregation group = its event list with observed outputs; non-trivial = at least 2 flushes and 1 delivered notification"); err != nil {
+		t.Fatal(err)
+	}
+	if err := runI.Finish("the same scenarios as ONE case each for the instance model (Model/Instance.v): real routing tree, global event list, a published alert is one event and the model routes and groups it; non-trivial = at least 2 alerts published and 2 distinct groups flushed"); err != nil {
 		t.Fatal(err)
 	}
 }
